@@ -12,7 +12,7 @@ TECHNIQUE = "runtime reference-model monitor: table model vs all read paths of t
 RULE = ("Case = one data frame (1-6 columns over text/int64/float64/bool/int8 with hostile names, 0-8 rows, five "
         "creation variants) driven through 1-12 operations from {append_rows, append_column, write_rows, write_column "
         "by name / by index (first and last always tried), write_rows with the indices in another order (refused, or every row where it was sent), "
-        "write_cell by position / by name, units, reopen, six classes of refused writes incl. a column with one unconvertible value}; after every operation column names, dtypes, columns, units, shapes, the whole "
+        "write_cell by position / by name, units, reopen, seven classes of refused writes incl. a column with one unconvertible value and a units list of another length than the columns}; after every operation column names, dtypes, columns, units, shapes, the whole "
         "table, every column, one row and one cell per column are compared with the model.  Distinct by (schema "
         "type multiset, creation variant, set of operation kinds, has rows); trivial = none.")
 ASSUMPTIONS = ["negative row indices are not generated (A10)",
@@ -293,7 +293,7 @@ def run_case(ctx, nix, np, path, rng, rep):
                     handles = [df, b.data_frames["df"]]
                     handles[1][:] if len(handles[1]) else None
                 elif op == "refused":
-                    k = rng.choice(["rows_len", "col_len", "unknown_col", "oob_row", "dup_col", "col_value"])
+                    k = rng.choice(["rows_len", "col_len", "unknown_col", "oob_row", "dup_col", "col_value", "units_len"])
                     kinds[-1] = "refused:" + k
                     if k in ("col_len", "unknown_col", "dup_col", "col_value") and not rows:
                         continue
@@ -317,6 +317,10 @@ def run_case(ctx, nix, np, path, rng, rep):
                             df.write_rows([mkrow()], [len(rows) + rng.randint(0, 2)])
                         elif k == "dup_col":
                             df.append_column([1 for _ in rows], cols[0][0], datatype=nix.DataType.Int64)
+                        elif k == "units_len":
+                            # one unit per column: a list of another length does not describe the table
+                            n = rng.choice([len(cols) - 1, len(cols) + 1, len(cols) + 3]) or len(cols) + 1
+                            df.units = [rng.choice(["mV", "s", None]) for _ in range(n)] if rng.random() < 0.8 else ["mV"] * n
                         elif k == "col_value":
                             vals = [spec[cols[bad_ci][1]][1]() for _ in rows[:-1]] + ["not a number"]
                             if rng.random() < 0.5:
